@@ -114,6 +114,9 @@ type World struct {
 	// identifiers of entities that were created only inside discarded branches (speculative steps): as far as
 	// state is concerned they never existed, and later messages sometimes name them
 	phCreditTypes, phClasses, phProjects, phBatches, phBaskets []string
+	collPair int // 1 + index of the history's colliding pair, 0 = not drawn yet
+	inBranch                                                    bool   // inside a speculative (discarded) branch
+	brNew                                                       idSets // what the branch has created so far
 }
 
 type originRef struct{ ID, Source, Contract string }
